@@ -209,9 +209,11 @@ Proof.
     assert (Htx1 : s_tx s1 = Some (mkTx db0 ([] ++ []))) by reflexivity.
     assert (Hg1 : gen_ok (s_gen s1) ([] ++ [])) by (intros k t []).
     destruct (body_inv E savepoint_pushes rollback_to_exact C savepoints fault p [] None s1 r l h s2 db0 [] []
-                Eb eq_refl eq_refl Hnc Htx1 (sub_nil _) Hsc Hg1 Hrb Hdr) as [t' [local' HI]].
+                Eb eq_refl Hnc Htx1 (sub_nil _) Hsc Hg1 Hrb Hdr) as [t' [local' HI]].
     destruct HI as (A1 & A2 & A3 & A4 & A5 & A6 & A7 & A8 & A9 & nops & B1 & B2 & B3).
     cbn [app fu] in A2.
+    assert (En1 : nest_of C s1 = negb (c_nonest C)) by (unfold nest_of; subst s1; cbn; rewrite orb_false_r; reflexivity).
+    rewrite En1 in A2.
     destruct (finish_open C fault hard_commit _ _ _ _ _ _ _ _ _ _ _ H A1) as (D1 & D2 & D3 & D4 & D5). cbv zeta in *.
     assert (Hops : s_ops s = (if is_ok r then KCommit else KRollback, fault (length (s_ops s2))) :: nops ++ [(KBegin, false)]).
     { rewrite D2, B1. subst s1; reflexivity. }
